@@ -426,6 +426,25 @@ fn transform_unit<F: Backend>(cx: &mut Cx, tier: Tier) {
             m
         }, false),
         ("rot30 + translate", Matrix4::new_rotation(Vector3::new(0.0, 0.0, std::f32::consts::FRAC_PI_6)) * Matrix4::new_translation(&Vector3::new(0.3, 0.1, -0.7)), false),
+        // bottom rows with m33 == 1 exactly (the camera perspective of the CLI
+        // demo), alone, with a full bottom row, and under rotation + scale
+        ("perspective z, m33 = 1", {
+            let mut m = Matrix4::identity();
+            m[(3, 2)] = 0.25;
+            m
+        }, false),
+        ("perspective x y z, m33 = 1", {
+            let mut m = Matrix4::identity();
+            m[(3, 0)] = 0.125;
+            m[(3, 1)] = -0.0625;
+            m[(3, 2)] = 0.25;
+            m
+        }, false),
+        ("perspective z, m33 = 1, rotated and scaled", {
+            let mut m = Matrix4::identity();
+            m[(3, 2)] = 0.3;
+            m * Matrix4::new_rotation(Vector3::new(0.3, -0.2, 0.5)) * Matrix4::new_scaling(0.75)
+        }, false),
     ];
     let progs: Vec<Prog> = {
         let mut v = vec![];
@@ -552,7 +571,7 @@ impl Check for C03 {
     }
     fn meta(&self, tier: Tier) -> Meta {
         Meta {
-            rule: "case = (program, box); (a) every opcode x operand form {reg, reg/reg, same-reg, reg/imm and imm/reg with 12 immediates} x every interval (pair) over the finite endpoint alphabet E (+op-specific boundary endpoints: quadrant boundaries, +-1+-ulp, exp/ln limits), sample points per interval = endpoints, midpoint, neighbours of the endpoints and every alphabet value inside, all combinations for binary ops; (b) fan families of width w = 1..16 (thorough 24): w values live across atan2 / mod / sin / exp call-outs, consumed in three orders, all nodes exported, 225 boxes; every DAG up to the node bound over one representative op per interval-behaviour class {add,sub,mul,div,recip,sqrt,square,abs,sin,atan2,floor,mod,min,and,compare,not} with all nodes exported, boxes from a per-axis endpoint grid, points = corners/edge midpoints/centre, local obligation at every node on the intermediate intervals that actually arise (operand values clamped into the evaluator's operand intervals); (c) Shape API with 7 matrices (exact dyadic ones checked to 4 ulp, projective / 30-degree rotation to 1e-5 relative); VM and JIT; tolerance 4 ulp; excluded: NaN interval, NaN value, atan2(0,0); non-trivial = the returned interval is not the NaN interval".into(),
+            rule: "case = (program, box); (a) every opcode x operand form {reg, reg/reg, same-reg, reg/imm and imm/reg with 12 immediates} x every interval (pair) over the finite endpoint alphabet E (+op-specific boundary endpoints: quadrant boundaries, +-1+-ulp, exp/ln limits), sample points per interval = endpoints, midpoint, neighbours of the endpoints and every alphabet value inside, all combinations for binary ops; (b) fan families of width w = 1..16 (thorough 24): w values live across atan2 / mod / sin / exp call-outs, consumed in three orders, all nodes exported, 225 boxes; every DAG up to the node bound over one representative op per interval-behaviour class {add,sub,mul,div,recip,sqrt,square,abs,sin,atan2,floor,mod,min,and,compare,not} with all nodes exported, boxes from a per-axis endpoint grid, points = corners/edge midpoints/centre, local obligation at every node on the intermediate intervals that actually arise (operand values clamped into the evaluator's operand intervals); (c) Shape API with 10 matrices (exact dyadic ones checked to 4 ulp; 30-degree rotation and four projective ones - bottom row (0,0,.25,2), (0,0,.25,1), (.125,-.0625,.25,1), perspective x rotation x scale - to 1e-5 relative); VM and JIT; tolerance 4 ulp; excluded: NaN interval, NaN value, atan2(0,0); non-trivial = the returned interval is not the NaN interval".into(),
             bounds: match tier {
                 Tier::Quick => "two-variable forms over 19 endpoints (190 intervals, 36100 pairs); DAG nodes <= 2".into(),
                 Tier::Thorough => "two-variable forms over the full endpoint alphabet; DAG nodes <= 3 (thinned box grid at n = 3)".into(),
